@@ -57,6 +57,7 @@ ENC = {
     "caret": lambda x: b"c^md /c " + x,
     "psbytes": lambda x: b",".join(b"%d" % c for c in x),
     "psbytesZ": lambda x: b", ".join(b"%03d" % c for c in x),
+    "psbytesM": lambda x: b",".join((b"0x%02x" % c) if i % 2 else (b"%d" % c) for i, c in enumerate(x)),
 }
 KINDS = [k for k in ENC if not k.startswith("psbytes")]
 PAYLOADS = [
@@ -114,6 +115,8 @@ def proposals(tier: str, rng: random.Random) -> list[tuple]:
     long_payload = (b"get http://evil-site.net/malware.exe now; " * 14)[:560]
     out.append((("psbytes",), long_payload))
     out.append((("psbytesZ",), long_payload))
+    out.append((("psbytesM",), long_payload))
+    out.append((("psbytesM", "atob"), long_payload[:505]))
     # a payload whose byte values all have two decimal digits (upper-case text): the array also reads as comma-separated hex pairs
     upper_payload = (b"BEACON TO 10.20.30.40 AND 172.16.5.9 EVERY HOUR; " * 14)[:560]      # (nothing in it that flattening normalises)
     out.append((("psbytes",), upper_payload))
